@@ -210,7 +210,7 @@ func init() {
 			"non-trivial = the program delegates and the trace has >= 2 yields; distinct by hash(program)+input+script")
 		spec := &diffSpec{
 			profiles: []*profile{delegationProfile()}, batchSize: 20, batches: rs.vol(25, 500),
-			fixed: append(recursionPrograms(rs.tier == "thorough"), yieldFromRows()...),
+			fixed: append(append(recursionPrograms(rs.tier == "thorough"), yieldFromRows()...), delegationPrograms()...),
 			nontrivial: func(p *Program, r *Record) bool {
 				return r.Yields >= 2 && (p.hasTag("yieldfrom") || p.hasTag("generator-literal") || p.hasTag("recursion"))
 			},
@@ -254,6 +254,7 @@ func init() {
 		for i, sh := range closureInGeneratorShapes {
 			table = append(table, mkShapeProgram("Z"+itoa(100+i), sh))
 		}
+		table = append(table, delegationPrograms()...)
 		spec := &diffSpec{
 			profiles: []*profile{controlFlowProfile(), scopingProfile(), rangeProfile(), delegationProfile(), consumerProfile()}, batchSize: 40, batches: rs.vol(12, 600),
 			fixed: table, fixedStyles: true,
@@ -315,6 +316,14 @@ func yieldFromRows() []*Program {
 			q.tag("yieldfrom")
 			out = append(out, q)
 		}
+	}
+	return out
+}
+
+func delegationPrograms() []*Program {
+	var out []*Program
+	for i, sh := range delegationShapes {
+		out = append(out, mkShapeProgram("D"+itoa(100+i), sh))
 	}
 	return out
 }
